@@ -346,7 +346,54 @@ def _is_call(e, names):
     return isinstance(e, ast.Call) and ((isinstance(e.func, ast.Name) and e.func.id in names) or (isinstance(e.func, ast.Attribute) and e.func.attr in names))
 
 
-def _accumulate_form(e):
+def fold_helper_kind(fn):
+    """a module-level helper  H(op, xs) / H(xs, op)  that is a running fold: 'suffix' when it walks reversed(xs) appending op(val, out[-1]) (the
+    first value as it is) and reverses the result, 'prefix' when it walks xs in order -> (kind, index of the op parameter, index of the list parameter)"""
+    params = [a.arg for a in fn.args.args]
+    if len(params) != 2:
+        return None
+    body = [s for s in fn.body if not (isinstance(s, ast.Expr) and isinstance(s.value, ast.Constant))]
+    if len(body) < 3 or not (isinstance(body[0], ast.Assign) and isinstance(body[0].value, ast.List) and not body[0].value.elts and isinstance(body[0].targets[0], ast.Name)):
+        return None
+    out = body[0].targets[0].id
+    loop = body[1]
+    if not (isinstance(loop, ast.For) and isinstance(loop.target, ast.Name) and len(loop.body) == 1):
+        return None
+    it = loop.iter
+    rev = False
+    if _is_call(it, ('reversed',)) and len(it.args) == 1:
+        rev = True
+        it = it.args[0]
+    if not (isinstance(it, ast.Name) and it.id in params):
+        return None
+    xs = it.id
+    opn = [p for p in params if p != xs][0]
+    st = loop.body[0]
+    val = loop.target.id
+    want1 = '%s.append(%s(%s, %s[-1]) if %s else %s)' % (out, opn, val, out, out, val)
+    want2 = '%s.append(%s(%s[-1], %s) if %s else %s)' % (out, opn, out, val, out, val)
+    if ast.unparse(st) not in (want1, want2):
+        return None
+    rest = body[2:]
+    reversed_back = any(isinstance(x, ast.Expr) and ast.unparse(x) == '%s.reverse()' % out for x in rest)
+    ret = rest[-1]
+    if not isinstance(ret, ast.Return):
+        return None
+    rv = ast.unparse(ret.value)
+    if rv == out and rev == reversed_back:
+        pass
+    elif rv in ('%s[::-1]' % out, 'list(reversed(%s))' % out) and rev and not reversed_back:
+        pass
+    else:
+        return None
+    return ('suffix' if rev else 'prefix', params.index(opn), params.index(xs))
+
+
+def _accumulate_form(e, helpers=None):
+    if helpers and isinstance(e, ast.Call) and isinstance(e.func, ast.Name) and e.func.id in helpers and len(e.args) == 2 and not e.keywords:
+        k = fold_helper_kind(helpers[e.func.id])
+        if k is not None and isinstance(e.args[k[1]], ast.Name) and e.args[k[1]].id in ('min', 'max'):
+            return e.args[k[2]], e.args[k[1]].id, k[0] == 'suffix'
     """-> (operand expr, 'min'|'max', suffix?) for  list(accumulate(X, op))  |  list(accumulate(reversed(X), op))[::-1]  |  list(reversed(list(accumulate(reversed(X), op))))"""
     def core(c):
         # accumulate(Y, op) -> (Y, op)
@@ -391,6 +438,7 @@ class Interp(object):
 
     def __init__(self, facts=None):
         self.facts = list(facts or [])
+        self.split_facts = list(facts or [])     # the case this run is analysed under (with_splits): kept across the paths of a handler
         self.obligations = []   # (text, Aff goal>=0, lineno)
         self.failed = []
         self.fresh = [0]
@@ -467,7 +515,7 @@ class Interp(object):
         if isinstance(e, ast.BinOp) and isinstance(e.op, ast.Add):
             return self.concat(self.seq_or_const(e.left, env), self.seq_or_const(e.right, env))
         # running reductions: list(accumulate(X, op)) is the prefix reduction, list(accumulate(reversed(X), op))[::-1] (or reversed again) the suffix one
-        acc = _accumulate_form(e)
+        acc = _accumulate_form(e, getattr(self, 'helpers', None))
         if acc is not None:
             inner, op, suffix = acc
             x = self.seq(inner, env)
@@ -490,6 +538,25 @@ class Interp(object):
             return self.seq(e.func.value, env)
         if isinstance(e, ast.Subscript) and isinstance(e.slice, ast.Slice) and e.slice.lower is None and e.slice.upper is None and e.slice.step is None:
             return self.seq(e.value, env)
+        if isinstance(e, ast.Subscript) and isinstance(e.slice, ast.Slice) and e.slice.step is None:
+            # X[lo:hi] of a one-piece sequence: positions lo .. hi-1 (clipped to the sequence; decided by the facts or split)
+            x = self.seq(e.value, env)
+            if len(x.segments) == 1:
+                fx = self.facts + list(env.get('#facts', ()))
+                lo = self.aff(e.slice.lower, env) if e.slice.lower is not None else Aff.const(0)
+                hi = self.aff(e.slice.upper, env) if e.slice.upper is not None else x.length
+                self.require(lo, 'slice start of `%s` is not negative' % ast.unparse(e)[:50], e.lineno, env.get('#facts', ()))
+                self.require(hi, 'slice stop of `%s` is not negative' % ast.unparse(e)[:50], e.lineno, env.get('#facts', ()))
+                if not entails(fx, x.length - hi):
+                    if entails(fx, hi - x.length - Aff.const(1)):
+                        hi = x.length
+                    else:
+                        raise NeedSplit(x.length - hi)
+                if not entails(fx, hi - lo):
+                    if entails(fx, lo - hi - Aff.const(1)):
+                        return Seq(Aff.const(0), lambda i: NEUTRAL['max'], 'empty slice')
+                    raise NeedSplit(hi - lo)
+                return Seq(hi - lo, lambda i, x=x, lo=lo: x.elem(_aff(i) + lo), '%s[%r:%r]' % (x.desc, lo, hi))
         raise Unknown('sequence expression %s' % ast.unparse(e)[:40])
 
     def seq_or_const(self, e, env):
@@ -523,7 +590,7 @@ class Interp(object):
                 t = inner.elem(i - m)
                 return _with_fill(t, low=c)
             return Seq(y.length + m, elem, 'pad(%s,%r)+%s' % (c[1], m, y.desc))
-        if isinstance(y, tuple) and y[0] == 'pad' and isinstance(x, Seq) and len(x.segments) == 1 and x.desc != 'comprehension':
+        if isinstance(y, tuple) and y[0] == 'pad' and isinstance(x, Seq) and len(x.segments) == 1 and x.desc != 'comprehension' and not x.desc.startswith('running'):
             c, m = y[1], y[2]
             inner = x
 
@@ -954,11 +1021,12 @@ def desugar(func_node):
     return fn
 
 
-def summarize_offline(func_node, kind, facts=()):
+def summarize_offline(func_node, kind, facts=(), helpers=None):
     """discrete-time offline visitTimedX -> ([(case facts, canonical term)], Interp).  An `if` on lengths/bounds splits the analysis."""
     func_node = desugar(func_node)
     body = [s for s in func_node.body if not (isinstance(s, ast.Expr) and isinstance(s.value, ast.Constant))]
     it = Interp(facts)
+    it.helpers = helpers or {}
     cases = []
     paths = [([], [])]
     for st in body:
@@ -1116,13 +1184,24 @@ def _run_path(it, func_node, body, conds):
                 it.require(seq.length - hi, 'the truncated result is not longer than what was computed', st.lineno)
                 it.require(hi - n, 'the result has one value per sample (not shorter than the trace)', st.lineno)
                 it.require(n - hi, 'the result has one value per sample (not longer than the trace)', st.lineno)
+            if seq is None and isinstance(v, ast.Subscript) and isinstance(v.slice, ast.Slice) and v.slice.step is None \
+                    and (v.slice.lower is None or (isinstance(v.slice.lower, ast.Constant) and v.slice.lower.value == 0)) and v.slice.upper is not None:
+                # (A + B)[0:K]: the first K values of a sequence built from pieces
+                whole = it.seq(v.value, env)
+                hi = it.aff(v.slice.upper, env)
+                it.require(whole.length - hi, 'the truncated result is not longer than what was computed', st.lineno)
+                it.require(hi - n, 'the result has one value per sample (not shorter than the trace)', st.lineno)
+                it.require(n - hi, 'the result has one value per sample (not longer than the trace)', st.lineno)
+                seq = whole
+                sliced_whole = True
             if seq is None:
                 try:
                     seq = it.seq(v, env)
                 except Unknown:
                     raise Unknown('return %s' % ast.unparse(v)[:40])
-                it.require(seq.length - n, 'the result has one value per sample (not shorter than the trace)', st.lineno)
-                it.require(n - seq.length, 'the result has one value per sample (not longer than the trace)', st.lineno)
+                if not locals().get('sliced_whole'):
+                    it.require(seq.length - n, 'the result has one value per sample (not shorter than the trace)', st.lineno)
+                    it.require(n - seq.length, 'the result has one value per sample (not longer than the trace)', st.lineno)
             t = Aff.sym('t')
             for (start, length, f) in seq.pieces():
                 case = [t - start, start + length - Aff.const(1) - t, t, n - Aff.const(1) - t]
@@ -1140,14 +1219,14 @@ def _run_path(it, func_node, body, conds):
     if not out_cases:
         if _infeasible(it.facts):
             # a path whose conditions contradict each other (`not (x == 0)` split into x < 0 under x >= 0): nothing to decide
-            it.facts = []
+            it.facts = list(it.split_facts)
             it.base_facts()
             return []
         raise Unknown('no output term')
     facts_here = list(it.facts)
     res = [(facts_here + c, tm) for c, tm in out_cases]
     # the path conditions must not leak into the next path
-    it.facts = []
+    it.facts = list(it.split_facts)
     it.base_facts()
     return res
 
